@@ -15,7 +15,8 @@ import opmods
 from wasmgen import module_for, encode, arg_vectors, decode, v8
 from wasmgen import wasm_ast as A
 
-GENS = [("Macros", "gen_macros"), ("EmitTable", "gen_emit"), ("AtomicEmit", "gen_atomic_emit")]
+GENS = [("Macros", "gen_macros"), ("EmitTable", "gen_emit"), ("AtomicEmit", "gen_atomic_emit"),
+        ("Mangle", "gen_mangle")]        # Model.Render (the driver's import names) interprets the regenerated module-name rule
 CORPUS = os.path.join(vlib.TOOLS, "corpus")
 
 
